@@ -1228,7 +1228,7 @@ func (r *Resource) DominantResourceType(capacity *Resource) string {
 }
 
 func (r *Resource) TypeMatching(other *Resource) uint64 {
-	if r == nil || other == nil {
+	if r == nil || other == nil || len(r.Resources) == 0 {
 		return 0
 	}
 	matchingResTypes := 0
